@@ -1,15 +1,72 @@
 package flowsim
 
 import (
+	"fmt"
 	"testing"
+	"time"
 
 	"verif.local/engines/eng"
 	"verif.local/simrt"
 )
 
-// twins runs differential companions of the scenario under the same seed
-// (C10 flattened flow, C17 other style, C19 canonical construction).
+// twins runs differential companions of the scenario under the same schedule
+// (C19: canonical construction; C10: flattened flow). Only meaningful because
+// runs are deterministic: same choices => same log unless behaviour differs.
 func (c *octx) twins(t *testing.T, cfg simrt.Config) *eng.Violation {
+	switch c.prop {
+	case "C19":
+		if v := c.getters(); v != nil {
+			return v
+		}
+		tw := canonical(c.sc)
+		res, _ := execScn(t, tw, simrt.Config{Seed: cfg.Seed, Replay: true, Tape: c.res.Tape})
+		return c.sameLog("styles-differ", "constructor options only, last values", res)
+	case "C10":
+		flat := flatten(c.sc)
+		if flat == nil {
+			return nil
+		}
+		c.out.Probes["flattened_twin_compared"]++
+		res, _ := execScn(t, flat, simrt.Config{Seed: cfg.Seed, Replay: true, Tape: c.res.Tape})
+		return c.sameLog("nested-differs-from-flat", "the equivalent flattened flow", res)
+	}
+	return nil
+}
+
+func (c *octx) sameLog(clause, what string, other *simrt.Result) *eng.Violation {
+	a, b := c.res.Events, other.Events
+	for i := 0; i < len(a) || i < len(b); i++ {
+		var x, y simrt.Event
+		if i < len(a) {
+			x = a[i]
+		}
+		if i < len(b) {
+			y = b[i]
+		}
+		if x != y {
+			return c.viol(clause, "same seed, same schedule: event %d is %+v as configured, but %+v with %s", i+1, x, y, what)
+		}
+	}
+	return nil
+}
+
+// getters: last setting wins, else the documented default.
+func (c *octx) getters() *eng.Violation {
+	for id, n := range c.sc.Nodes {
+		got, ok := c.obs.Cfg[id]
+		if !ok {
+			continue
+		}
+		cfg := n.config()
+		eh := "continue"
+		if cfg.Stop {
+			eh = "stop"
+		}
+		want := fmt.Sprintf("retries=%d wait=%s conc=%d errh=%s", cfg.Retries, time.Duration(cfg.WaitMs)*time.Millisecond, cfg.Conc, eh)
+		if got != want {
+			return c.viol("getters", "node %d configured by %+v reports %q, last-setting-wins / defaults require %q", id, n.Settings, got, want)
+		}
+	}
 	return nil
 }
 
